@@ -13,7 +13,7 @@ TITLES = {
     '_read_column': "columns='name' returns the column value, columns=['name'] a {name: value} dict, for exactly the in-range samples",
     '_meta_witness': 'reachability: a two-sample forward-filled read is reachable',
     '_write_new': 'write (list-of-dicts): accepted iff no index exists; one group per index in the file of that index with its own value; an existing index is refused with IOError and the stored sample is unchanged; all files closed on return',
-    '_write_dict_forms': 'write (dict form, 3 samples): length-3 lists distributed per sample, scalars / other lengths repeated, strings never distributed (any length), nested dicts keep structure',
+    '_write_dict_forms': 'write (dict form, 3 samples): length-3 lists distributed per sample, scalars / other lengths repeated, strings never distributed (any length), nested dicts (3 levels, equal inner names in two branches) keep structure',
     '_write_subdirs': 'write: a batch straddling a subdirectory boundary and a later write call with any other index on the same writer (back-fill): every sample is stored in the file of its index inside the subdirectory of that file, whatever was written before',
     '_write_witness': 'reachability: an accepted write is reachable',
 }
@@ -45,12 +45,12 @@ if mode == 'read':
 else:
     a = kw.get('a', 0); d1 = kw.get('d1', 1); d2 = kw.get('d2', 1); slen = kw.get('slen', 3)
     samples = [a, a + d1, a + d1 + d2]; text = 'abcd'[:slen]
-    w.write(samples, {'per': [10, 20, 30], 'all': 7, 'txt': text, 'sub': {'x': [4, 5, 6], 't': text}})
+    w.write(samples, {'per': [10, 20, 30], 'all': 7, 'txt': text, 'sub': {'x': [4, 5, 6], 't': text, 'deep': {'y': [7, 8, 9], 'z': {'w': 1}}}, 'other': {'deep': {'y': 0}}})
     r = drf.DigitalMetadataReader(md)
     got = r.read(samples[0], samples[-1])
     for i, s in enumerate(samples):
         g = got.get(s)
-        want = {'per': [10, 20, 30][i], 'all': 7, 'txt': text, 'sub': {'x': [4, 5, 6][i], 't': text}}
+        want = {'per': [10, 20, 30][i], 'all': 7, 'txt': text, 'sub': {'x': [4, 5, 6][i], 't': text, 'deep': {'y': [7, 8, 9][i], 'z': {'w': 1}}}, 'other': {'deep': {'y': 0}}}
         if g != want: print('sample', s, 'read back', g, 'expected', want); bad = 1
 shutil.rmtree(top)
 sys.exit(1 if bad else 0)
